@@ -173,12 +173,15 @@ def normalise(rnames, ev):
     # request_guid is derived from request_id and has to be unique as well: two requests that share a guid are recorded with
     # the same identifier, which the trace specification (UniqueIds) rejects
     seen_guid = {}
+    ev2 = []
     for e in ev:
         g = e.get('guid')
         if g is not None:
             if g in seen_guid and seen_guid[g] != e.get('rid'):
                 e = dict(e, rid=seen_guid[g])
             seen_guid.setdefault(g, e.get('rid'))
+        ev2.append(e)
+    ev = ev2
     for e in ev:
         out.append({'p': e['p'], 'a': e['a'], 'params': e.get('params', ['-', '-']), 'token': e.get('token', ['-', '-']),
                     'rid': e.get('rid', -1), 'resp': e.get('resp', ['-'])})
